@@ -322,6 +322,7 @@ def nestedTable : Table := ⟨3, .node 97 (some ([97], 1))
 
 example : nestedTable.Good cmpSigned ∧ nestedTable.get cmpSigned [97, 98] = (.ok, some 2) ∧
     nestedTable.get cmpSigned [128] = (.ok, some 3) ∧ nestedTable.Owns { live := 7 } := by
-  decide
+  refine ⟨by decide, by decide, by decide, ?_⟩
+  unfold Table.Owns; decide
 
 end CC.Properties.C11
